@@ -19,9 +19,14 @@
    proved for every commit on the tree model (Props/C08.v: C08_every_parent_has_members_on_both_sides,
    C08_filtered_path_node_is_blank); the key assignment ks of this file abstracts that tree
    (ks x = None iff the node is blank), which the check validates on the implementation.
+   COMPLETENESS (Proofs/PrivComplete.v, over the tree model with its unmerged lists): for every
+   non-blank ancestor a member either holds the private key or is listed there as an unmerged
+   leaf.  Proved preserved by the proposals of a commit (for every member that stays), by the
+   path for every receiver and for the committer, and established for every joiner; so, with
+   PrivOK, decap always finds a ciphertext sealed to a key the member holds (C01).
    Statements only. *)
 From Coq Require Import NArith List.
-From MlsV Require Import Res TreeMathGen TreeMathProofs Tree TreeProofs Priv PrivProofs.
+From MlsV Require Import Res TreeMathGen TreeMathProofs Tree TreeProofs TreeWF Kem Priv PrivProofs Decap DecapProofs TreeWF5 PrivComplete.
 Import ListNotations.
 Local Open Scope N_scope.
 
@@ -59,6 +64,48 @@ Theorem C09_path_nodes_fresh_partial : forall ks snd leafkey flt fk,
        keys_after_path ks snd leafkey flt fk (lvl_node k snd) = Some (fk k).
 Proof. exact path_nodes_fresh. Qed.
 
+Theorem C09_complete_after_proposals : forall t t1 me pr pr1,
+  Complete t me pr -> ParMono t t1 -> small t1 -> 2 * me < tlen t1 ->
+  provisional_priv t1 me pr None = Ok pr1 -> Complete t1 me pr1.
+Proof. exact complete_provisional. Qed.
+
+Theorem C09_proposals_never_create_parents_or_shrink_unmerged_lists :
+  forall t removes updates adds t' added, batch_edit t removes updates adds = TOk (t', added) -> ParMono t t'.
+Proof. exact ParMono_batch_edit. Qed.
+
+Theorem C09_complete_for_receivers : forall t1 snd id t2 me pr path_me flt fk L,
+  shape_ok t1 -> wf5 t1 -> small t1 ->
+  apply_update_path t1 snd id = TOk t2 ->
+  filtered (set t1 (2 * snd) (Some (Leaf id))) snd = Ok flt ->
+  Complete t1 me pr ->
+  1 <= L -> me / 2 ^ L = snd / 2 ^ L -> (forall k, k < L -> me / 2 ^ k <> snd / 2 ^ k) ->
+  path_nodes (set t1 (2 * snd) (Some (Leaf id))) me = Ok path_me -> 2 * me < tlen t1 ->
+  Complete t2 me (decap_priv pr (length path_me) (N.to_nat (L - 1)) (upd_nodes flt 1 fk)).
+Proof. exact complete_decap. Qed.
+
+Theorem C09_complete_for_the_committer : forall t1 snd id t2 pr flt fk leafkey,
+  shape_ok t1 -> wf5 t1 -> small t1 ->
+  apply_update_path t1 snd id = TOk t2 ->
+  filtered (set t1 (2 * snd) (Some (Leaf id))) snd = Ok flt ->
+  Complete t2 snd (encap_priv pr (length flt) flt fk leafkey).
+Proof. exact complete_encap. Qed.
+
+Theorem C09_complete_for_joiners : forall t removes updates adds t1 added me snd id t2 L jflt ks leafkey pr,
+  tlen t + 2 * N.of_nat (length adds) < 2 ^ 25 -> small t1 ->
+  batch_edit t removes updates adds = TOk (t1, added) -> In me added ->
+  apply_update_path t1 snd id = TOk t2 ->
+  shape_ok t2 -> wf5 t2 -> small t2 -> get t2 (2 * me) <> None ->
+  1 <= L -> (forall k, k < L -> me / 2 ^ k <> snd / 2 ^ k) ->
+  filtered t2 me = Ok jflt ->
+  join_priv ks me leafkey jflt (N.to_nat (L - 1)) = Some pr ->
+  Complete t2 me pr.
+Proof. exact complete_join. Qed.
+
+Theorem C09_nonblank_ancestor_is_never_filtered : forall t me jflt,
+  shape_ok t -> wf5 t -> small t -> get t (2 * me) <> None -> filtered t me = Ok jflt ->
+  forall i um, get t (lvl_node (N.of_nat (S i)) me) = Some (Par um) -> nth_error jflt i = Some false.
+Proof. exact nonblank_ancestor_unfiltered. Qed.
+
 (* non-vacuity: four members, parents set; leaf 0 commits with a path.  Leaf 3 (common
    ancestor = root, level 2) keeps its leaf key and its level-1 key and gets the new root key *)
 Example C09_ex :
@@ -72,3 +119,9 @@ Print Assumptions C09_committer_privok.
 Print Assumptions C09_joiner_privok.
 Print Assumptions C09_no_key_for_blank_node.
 Print Assumptions C09_path_nodes_fresh_partial.
+Print Assumptions C09_complete_after_proposals.
+Print Assumptions C09_proposals_never_create_parents_or_shrink_unmerged_lists.
+Print Assumptions C09_complete_for_receivers.
+Print Assumptions C09_complete_for_the_committer.
+Print Assumptions C09_complete_for_joiners.
+Print Assumptions C09_nonblank_ancestor_is_never_filtered.
